@@ -71,4 +71,19 @@ StrInv ==
     /\ (p.st = "ok" /\ p.fq /\ LabelsOK(p.labels) => Parse(Present(p.labels)).labels = p.labels)
     /\ (p.st = "ok" => Len(p.starts) = Len(p.labels))
     /\ (Accept(s) => DecName(EncName(Parse(s).labels), 0).name = Parse(s).labels)
+\* ---- round 7: raw spelling, pointer-aware reading
+RawRoundTrip ==
+  kind = "name" =>
+    LET t == RawPresent(n)  p == Parse(t) IN
+    /\ p.st = "ok" /\ p.fq /\ p.labels = n
+    /\ CompareSpec(t, Present(n)) = Len(n)                      \* the two spellings are one name
+    /\ CompareSpec(RawPresent(OtherCaseName(n)), t) = Len(n)         \* so is the other letter case
+    /\ OtherCaseName(OtherCaseName(n)) = n
+DenotesOwn ==   \* a name behind its own parent, shortened by a pointer to it, denotes the name; nothing else does
+  kind = "name" /\ ValidName(n) /\ Len(n) >= 1 =>
+    LET par == EncName(Tail(n))
+        msg == par \o <<Len(n[1])>> \o n[1] \o <<192, 0>> IN
+    /\ WireDenotesName(EncName(n), 0, Len(EncName(n)), n)
+    /\ WireDenotesName(msg, Len(par), Len(msg), n)
+    /\ (OtherCaseName(n) # n => ~WireDenotesName(msg, Len(par), Len(msg), OtherCaseName(n)))
 =============================================================================
